@@ -640,6 +640,10 @@ where
     }
 }
 
+#[cfg(kani)]
+#[path = "/verif/kani/mpmc.rs"]
+mod kani_verif;
+
 // Export a non thread-safe version using NoopLock
 
 /// A [`GenericChannel`] implementation which is not thread-safe.
